@@ -325,11 +325,24 @@ type pdesc struct {
 	// Loop (TestC14Loop): the task behind the catch event decides (result
 	// "again") whether the token returns to the catch event
 	Loop bool `json:"loop,omitempty"`
+	// InSub: everything behind the start event sits inside nested sub-processes
+	InSub int `json:"inSub,omitempty"`
 }
 
 func buildProc(d pdesc) *gen.Graph {
-	b := gen.NewB()
+	root := gen.NewB()
+	b := root
 	st := b.Add(gen.KStart)
+	for lvl := 0; lvl < d.InSub; lvl++ {
+		sp := b.Add(gen.KSub)
+		en := b.Add(gen.KEnd)
+		b.Connect(st, sp)
+		b.Connect(sp, en)
+		ib := b.Sub()
+		sp.Inner = ib.G
+		b = ib
+		st = b.Add(gen.KStart)
+	}
 	cur := st
 	if d.PreTask {
 		t := b.Add(gen.KTask)
@@ -366,10 +379,10 @@ func buildProc(d pdesc) *gen.Graph {
 		back.Formal, back.Cond = true, gen.BoolVar("again")
 		out := b.Connect(x, en)
 		x.Default = out.ID
-		return b.G
+		return root.G
 	}
 	b.Connect(t, en)
-	return b.G
+	return root.G
 }
 
 func evFor(df def) *model.Ev {
